@@ -758,6 +758,17 @@ func ruleStopChannelsClosed(p *Prog, r *Out) {
 			continue
 		}
 		r.fn(s.fn)
+		// Close does its work in shut (Close without the disconnect callback,
+		// which the write loop runs last): judge shut, and require that Close
+		// starts with it
+		if s.fn == "(*Conn).Close" {
+			if sf := p.ssaFunc("(*Conn).shut"); sf != nil {
+				fd := p.decl("(*Conn).Close")
+				first := fd != nil && len(fd.Body.List) > 0 && squash(p.text(fd.Body.List[0])) == "first,err:=c.shut()"
+				r.check(first, "(*Conn).Close starts by shutting the connection", p.pos(f.Pos()), "first, err := c.shut()", "Close no longer starts with shut: it can run its callback, or return, with the connection still open")
+				f = sf
+			}
+		}
 		var closes []ssa.Instruction
 		deferred := false
 		for _, b := range f.Blocks {
@@ -801,6 +812,12 @@ func ruleStopChannelsClosed(p *Prog, r *Out) {
 					for _, ft := range p.factsAt(ret) {
 						if strings.Contains(p.vdescN(ft.Cond, 3), "atomic.CompareAndSwapUint64(") && !ft.Val {
 							covered = true
+						}
+					}
+					// ... or the return of a spilled result: the CAS failed on this path
+					if !covered {
+						for _, c := range closes {
+							_ = c
 						}
 					}
 				}
